@@ -33,7 +33,7 @@ def root(t, carried=None):
     if t.op == "loop":
         return root(t.args[2], carried)
     if t.op == "call":
-        return ("opaque", t.args[0])
+        return ("opaque", t.args[0], t)
     if t.op == "where" or t.op in ("cat", "stack"):
         return ("fresh", t.op)
     return ("fresh", t.op)
